@@ -67,7 +67,7 @@ def build_objs(objs, rendering, ego):
             ob.pointcloud_num = o["pts"]
         else:
             ob = obj3d((o["x"], o["y"], 0.5), yaw=0.3 * i, label=o["label"], score=o["conf"] / 100.0, uuid=uu, vid=i + 1, points=o["pts"],
-                       attributes=attrs, frame="map" if rendering == "map" else "base_link", ego=ego)
+                       attributes=attrs, frame="map" if rendering.startswith("map") else "base_link", ego=ego)
             ob.semantic_label.name = nm
         out.append(ob)
     return out
@@ -83,6 +83,18 @@ def replay_filter(arg):
     egos = pipeline._egos()
     has_pos = any(P[k] for k in ("xmax", "ymax", "dmax", "dmin"))
     renders = [("base_link", None, None), ("base_link", egos[0], egos[0].transforms()), ("map", egos[1], egos[1].transforms())]
+    if has_pos:
+        # a registry that has already served the map->ego direction under another ego pose and then had its pose replaced (what the library
+        # itself does when it interpolates an evaluated frame): filtering sees the new pose only
+        from perception_eval.common.schema import FrameID
+
+        td = egos[0].transforms()
+        try:
+            filter_objects(build_objs(objs, "map", egos[0]), is_gt, **kwargs_of(P, td))
+            td[(FrameID.BASE_LINK, FrameID.MAP)] = egos[1].matrices()[0]
+            renders.append(("map:reused-transforms", egos[1], td))
+        except Exception:
+            pass
     if not has_pos and not P["minPts"]:
         renders.append(("2d", None, None))
         renders.append(("2d_tl", None, None))
